@@ -34,7 +34,11 @@ func handler(env *wl.Env, stream drpc.Stream, rpc string) error {
 	return c05.Handler(env, stream, rpc)
 }
 
-var extra = map[string]func(env *wl.Env){
+var extra map[string]func(env *wl.Env)
+
+func init() { extra = extraWorkloads }
+
+var extraWorkloads = map[string]func(env *wl.Env){
 	"idle": func(env *wl.Env) {},
 	"running": func(env *wl.Env) {
 		s, err := env.Conn.NewStream(context.Background(), "/silent", enc.Bytes{})
@@ -51,6 +55,16 @@ var extra = map[string]func(env *wl.Env){
 		env.Srv.Inject(refwire.Append(nil, refwire.Frame{Data: []byte{0xff, 0x01}, ID: refwire.ID{Stream: 1, Message: 1}, Kind: 7, Done: true}))
 		in, out := enc.Payload('c', 0, 0, enc.MinPayload), []byte(nil)
 		_ = env.Conn.Invoke(context.Background(), "/uA", enc.Bytes{}, &in, &out)
+	},
+	// RPC 1 ends by itself and its context is cancelled at the same moment (the watcher may find
+	// the stream already finished); RPC 2 then has a receive pending when the close comes
+	"cleancancel-then-running": func(env *wl.Env) {
+		ctx, cancel := context.WithCancel(context.Background())
+		if s, err := env.Conn.NewStream(ctx, "/ssD", enc.Bytes{}); err == nil {
+			_ = s.Close()
+			wl.Cancel(cancel)
+		}
+		extra["running"](env)
 	},
 	"parked": func(env *wl.Env) { // an operation parked inside a stalled transport
 		s, err := env.Conn.NewStream(context.Background(), "/silent", enc.Bytes{})
@@ -194,16 +208,28 @@ func (netConn) SetReadDeadline(t time.Time) error  { return nil }
 func (netConn) SetWriteDeadline(t time.Time) error { return nil }
 
 type listener struct {
-	mon    vs.Monitor
-	queue  []net.Conn
-	closed bool
-	Closes int
+	mon      vs.Monitor
+	queue    []net.Conn
+	closed   bool
+	tempErrs int // the next Accept calls fail with a temporary error
+	Closes   int
 }
 
+type tempErr struct{}
+
+func (tempErr) Error() string   { return "temporary accept failure" }
+func (tempErr) Timeout() bool   { return false }
+func (tempErr) Temporary() bool { return true }
+
 func (l *listener) Accept() (c net.Conn, err error) {
-	l.mon.Do("lis.Accept", func() bool { return len(l.queue) > 0 || l.closed }, func() {
+	l.mon.Do("lis.Accept", func() bool { return len(l.queue) > 0 || l.closed || l.tempErrs > 0 }, func() {
 		if l.closed {
 			err = net.ErrClosed
+			return
+		}
+		if l.tempErrs > 0 {
+			l.tempErrs--
+			err = tempErr{}
 			return
 		}
 		c, l.queue = l.queue[0], l.queue[1:]
@@ -248,6 +274,9 @@ func serveScenario(nconn int, kind string, stopBy string) *mc.Scenario {
 		st := &serveState{}
 		sched.Cur().State()["serve"] = st
 		lis := &listener{}
+		if stopBy == "temp-then-ctx" {
+			lis.tempErrs = 2 // Serve backs off on a (virtual) timer and then goes on accepting
+		}
 		srv := drpcserver.New(srvHandler{st})
 		ctx, cancel := context.WithCancel(context.Background())
 		var ends []*tr.End
@@ -269,7 +298,7 @@ func serveScenario(nconn int, kind string, stopBy string) *mc.Scenario {
 			})
 		}
 		vs.Go("stopper", func() {
-			if stopBy == "ctx" {
+			if stopBy == "ctx" || stopBy == "temp-then-ctx" {
 				wl.Cancel(cancel)
 			} else {
 				_ = lis.Close()
@@ -319,9 +348,9 @@ func serveScenario(nconn int, kind string, stopBy string) *mc.Scenario {
 	return &mc.Scenario{Name: name, Body: body, Check: check, Model: sched.Deviation, NoCache: true}
 }
 
-func plans(tier string) []mc.Plan {
+func basePlans(tier string) []mc.Plan {
 	var ps []mc.Plan
-	wnames := []string{"idle", "unary", "sstream", "bidi", "running", "parked", "badmeta"}
+	wnames := []string{"idle", "unary", "sstream", "bidi", "running", "parked", "badmeta", "cleancancel-then-running"}
 	cfgs := []wl.Config{{Pipe: tr.Options{Cap: -1}}, {Soft: true, Pipe: tr.Options{Cap: -1}}, {Pipe: tr.Options{Cap: -1}, Inactivity: true}}
 	if tier == "thorough" {
 		wnames = append(wnames, "cstream", "unary2")
@@ -343,7 +372,7 @@ func plans(tier string) []mc.Plan {
 	}
 	for _, n := range []int{1, 2} {
 		for _, kind := range []string{"echo", "silent"} {
-			for _, stop := range []string{"ctx", "lis"} {
+			for _, stop := range []string{"ctx", "lis", "temp-then-ctx"} {
 				bounds := []int{0, 1}
 				if tier == "thorough" && n == 1 {
 					bounds = []int{0, 1, 2}
@@ -353,6 +382,16 @@ func plans(tier string) []mc.Plan {
 		}
 	}
 	return ps
+}
+
+// plans adds, to every scenario, a twin explored relative to the reversed default schedule (a
+// second reference schedule for the deviation bound).
+func plans(tier string) []mc.Plan {
+	ps := basePlans(tier)
+	if tier == "thorough" {
+		return mc.WithReversed(ps, 1)
+	}
+	return mc.WithReversed(ps, 1)
 }
 
 func init() {
